@@ -112,7 +112,7 @@ Definition check (s : sx) : Z :=
           let card_ok := Nat.eqb (length lvs) (length vars) && (negb (kind_is_vec kind) || forallb utf8_valid lvs) in
           let has_res := match kind_reserved kind with
                          | Some r => str_in r (vars ++ map fst consts) | None => false end in
-          let mo := new_live (kind_reserved kind) (kind_is_vec kind) ns sub name help vars consts lvs in
+          let mo := new_live (kind_reserved kind) (kind_is_vec kind) (kind =? 10) ns sub name help vars consts lvs in
           match impl with
           | SL [SZ 0] => both (negb card_ok || negb dok || has_res) (match mo with LivePanicLabel => true | _ => false end)
           | SL [SZ 1] => both (negb card_ok) (match mo with LivePanicOther => true | _ => false end)
@@ -287,7 +287,7 @@ Definition explain (s : sx) : sx :=
   | SL [SZ 2; SZ kind; ns; sub; name; help; vars; consts; lvs; _] =>
       match dStr ns, dStr sub, dStr name, dStr help, dL dStr vars, dLP consts, dL dStr lvs with
       | Some ns, Some sub, Some name, Some help, Some vars, Some consts, Some lvs =>
-          match new_live (kind_reserved kind) (kind_is_vec kind) ns sub name help vars consts lvs with
+          match new_live (kind_reserved kind) (kind_is_vec kind) (kind =? 10) ns sub name help vars consts lvs with
           | LivePanicLabel => SL [SZ 0]
           | LivePanicOther => SL [SZ 1]
           | LiveOk d l => SL [SZ 2; SZ (match d_err d with Some e => err_code e | None => 0 end); eLP l;
